@@ -647,8 +647,9 @@ fn mapping_atomic_applicable_member_types_inner(
                 }
             }
 
-            let is_subtype = member_types.len() == atomic.vs.len();
-            if !is_subtype
+            // a requested key that no property declares is answered by the string index signature
+            let all_requested_declared = values.iter().all(|l| atomic.vs.contains_key(l));
+            if !all_requested_declared
                 && let Some(v) = &atomic.indexed_properties
                 && v.key.is_all_strings()
             {
